@@ -603,7 +603,8 @@ def _make_stamping(orig, kind):
                             slot['stamps'][id(e)] = seq
                             slot.setdefault('keep', []).append(e)
                             if kind == 'sink':
-                                slot['asm'].append({'seq': seq, 'kind': 'sink', 'pattern': enc(e[0].pattern)})
+                                slot['asm'].append({'seq': seq, 'kind': 'sink', 'pattern': enc(e[0].pattern),
+                                                    'flags': enc(getattr(e[0], 'flags', None))})
                             else:
                                 sr = e[1]
                                 slot['asm'].append({'seq': seq, 'kind': 'static', 'prefix': enc(sr._prefix),
